@@ -14,7 +14,7 @@ import c11
 PROPERTY = 'C07'
 MANIFEST = {
  'level_text': 'Lean 4 theorems, kernel-checked, about an exception-flow model of the connection loop: log.firewall returns for every Exception raised by the wrapped body and by its error handler; MetaFirewall wraps every overridden method named in any ancestor\'s __firewalled__ map; Irc.feedMsg returns whatever its own handler, IrcState.addMsg, every inFilter and every callback do (return, drop, raise any Exception), and a raising callback never prevents the later ones from running; an outFilter raising an Exception never loses the message; hence in the driver model of C11 (SocketDriver._read/run/_select, framing, decoding, parsing) no history of server bytes, chunkings and socket outcomes makes an exception escape SocketDriver.run, the driver is never removed by drivers.run, and a well-formed PING line received on a quiet connection is answered by its PONG on the wire. Which methods are firewalled, which class every relevant except clause names and how the driver encodes are re-extracted from /repo on every run and enter the theorems through table lemmas; model and code are tied by three differential runs (firewall/metaclass, feedMsg/takeMsg stage flow on the real Irc, hostile byte streams through the real driver with real plugins and a misbehaving plugin).',
- 'level_note': 'Trusted: Lean kernel; harness/extractors/firewall.py; the correspondence harness; LimnoriaModel.C05/C11 models as tied by their own checks. Modelled and proved: firewall, MetaFirewall attribute selection, feedMsg/takeMsg stage flow, driver read/send loop, drivers.run catch. Parameters (quantified over): what every handler/plugin does (returns, drops, raises). Not modelled: BaseExceptions other than as "escapes" (KeyboardInterrupt/SystemExit end the process by design), hangs, memory exhaustion, real sockets/TLS, reconnect internals; that no real handler hangs or raises a non-Exception is exploration (L3, run with the production logging path enabled: supybot formats every log record), reported as such; the real Irc's answer to PING is a contract of later_ping_answered validated there, except the per-message ISUPPORT/channel preamble, which is modelled and proved total.',
+ 'level_note': 'Trusted: Lean kernel; harness/extractors/firewall.py; the correspondence harness; LimnoriaModel.C05/C11 models as tied by their own checks. Modelled and proved: firewall, MetaFirewall attribute selection, feedMsg/takeMsg stage flow, driver read/send loop, drivers.run catch. Parameters (quantified over): what every handler/plugin does (returns, drops, raises). Not modelled: BaseExceptions other than as "escapes" (KeyboardInterrupt/SystemExit end the process by design), hangs, memory exhaustion, real sockets/TLS, reconnect internals; that no real handler hangs or raises a non-Exception is exploration (L3, run with the production logging path enabled: supybot formats every log record), reported as such; the answer of the real Irc to PING is a contract of later_ping_answered validated there, except the per-message ISUPPORT/channel preamble, which is modelled and proved total.',
  'technique': 'Lean 4 proof (case analysis on exception flow + the C11 invariant) + table extraction + differential correspondence at three levels',
  'design_ref': 'DESIGN.md §6 C07',
 }
